@@ -122,12 +122,19 @@ class WalkExec:
         self.fn, self.case_n, self.base_none = fn, case_n, base_none
         self.kernels = kernel_imports(tree)
         a = [x.arg for x in fn.args.args]
-        if len(a) != 5 or fn.args.vararg or fn.args.kwarg or fn.args.kwonlyargs or fn.args.defaults:
-            raise Unsupported("_walk no longer takes (self, dims, base_coords, base_rowids, funcs)")
+        d = fn.args.defaults
+        with_axis = len(a) == 6 and len(d) == 1 and isinstance(d[0], ast.Constant) and d[0].value == 0 and type(d[0].value) is int
+        if not (len(a) == 5 and not d or with_axis) or fn.args.vararg or fn.args.kwarg or fn.args.kwonlyargs:
+            raise Unsupported("_walk no longer takes (self, dims, base_coords, base_rowids, funcs[, axis=0])")
+        # n = number of dimensions still to walk; with an axis parameter the list stays whole and `axis` dimensions of it are done
         self.n = z3.Int("n")
-        self.hyps = [{"many": self.n > 1, "one": self.n == 1, "zero": self.n == 0}[case_n]]
+        self.axis = z3.Int("axis") if with_axis else z3.IntVal(0)
+        self.hyps = [{"many": self.n > 1, "one": self.n == 1, "zero": self.n == 0}[case_n], self.axis >= 0]
         self.Base = z3.Const("Base", SetS)
         self.env0 = {a[0]: SELF, a[1]: DimsV(0), a[2]: Coords([("B",)]), a[3]: None if base_none else Rows(self.Base, z3.BoolVal(True)), a[4]: FUNCS}
+        if with_axis:
+            self.env0[a[5]] = self.axis
+        self.with_axis = with_axis
         self.selfname = a[0]
         self.events = []
         self.requires = []  # (label, pc, goal)
@@ -161,7 +168,7 @@ class WalkExec:
         if isinstance(v, int):
             return v != 0
         if isinstance(v, DimsV):
-            return self.n - v.off > 0
+            return self.n + self.axis - v.off > 0
         if isinstance(v, LenOf):
             return v.rows.set != EMPTY
         if isinstance(v, Coords):
@@ -230,19 +237,32 @@ class WalkExec:
                         return l - r
                     if isinstance(e.op, ast.Mult):
                         return l * r
+                plain = lambda v: z3.is_int(v) or (isinstance(v, int) and not isinstance(v, bool))  # noqa
+                if plain(l) and plain(r) and isinstance(e.op, (ast.Add, ast.Sub)):
+                    return l + r if isinstance(e.op, ast.Add) else l - r
+                if plain(l) and plain(r) and isinstance(e.op, ast.Mult) and (isinstance(l, int) or isinstance(r, int)):
+                    return l * r
                 if isinstance(e.op, (ast.Add, ast.Sub, ast.Mult)):
-                    return z3.Int("num!%d" % next(_ids))  # a number nothing below depends on
+                    return z3.Int("num!%d" % next(_ids))  # a counter contribution: nothing below depends on it
             raise Unsupported(ast.unparse(e))
         if isinstance(e, ast.Subscript):
             v = self.ev(e.value, env, pc)
             if isinstance(v, DimsV):
                 sl = e.slice
                 if isinstance(sl, ast.Slice) and sl.upper is None and sl.step is None and isinstance(sl.lower, ast.Constant) and isinstance(sl.lower.value, int) and sl.lower.value >= 0:
+                    if self.with_axis:
+                        raise Unsupported("slicing dims in a _walk that also takes an axis")
                     return DimsV(v.off + sl.lower.value)
-                if isinstance(sl, ast.Constant) and isinstance(sl.value, int) and not isinstance(sl.value, bool) and sl.value >= 0:
-                    if not self.implied(pc, self.n - v.off > sl.value):
-                        raise Unsupported("dims[%d] not known to exist" % sl.value)
-                    return DimV(v.off + sl.value)
+                if not isinstance(sl, ast.Slice):
+                    i = self.ev(sl, env, pc)
+                    if isinstance(i, bool) or not (isinstance(i, int) or z3.is_int(i)):
+                        raise Unsupported(ast.unparse(e))
+                    eff = z3.simplify(i + v.off - self.axis)  # position counted from the first dimension still to walk
+                    if not z3.is_int_value(eff) or eff.as_long() < 0:
+                        raise Unsupported("%s: not a fixed position among the dimensions still to walk" % ast.unparse(e))
+                    if not self.implied(pc, self.n > eff.as_long()):
+                        raise Unsupported("%s not known to exist" % ast.unparse(e))
+                    return DimV(eff.as_long())
             raise Unsupported(ast.unparse(e))
         if isinstance(e, ast.Compare) and len(e.ops) == 1:
             l, r = self.ev(e.left, env, pc), self.ev(e.comparators[0], env, pc)
@@ -290,7 +310,7 @@ class WalkExec:
         if isinstance(f, Token) and f.name == "len" and len(args) == 1:
             v = args[0]
             if isinstance(v, DimsV):
-                return self.n - v.off
+                return self.n + self.axis - v.off
             if isinstance(v, DimV):
                 c = z3.Int("nkeys!%d" % next(_ids))
                 self.hyps.append(c >= 0)
@@ -307,12 +327,17 @@ class WalkExec:
             k = len(self.requires) + 1
             self.requires.append(("call-requires#%d[%s: operands strictly increasing]" % (k, f.name), list(pc), z3.And(l.inc, r.inc)))
             return Rows(KERNELS[f.name](l.set, r.set), z3.BoolVal(True))
-        if f is WALK and len(args) == 4:
+        if f is WALK and len(args) in ((4, 5) if self.with_axis else (4,)):
+            ax = args[4] if len(args) == 5 else 0
+            if isinstance(ax, bool) or not (isinstance(ax, int) or z3.is_int(ax)) or not isinstance(args[0], DimsV):
+                raise Unsupported(src)
+            eoff = z3.simplify(args[0].off + ax - self.axis)  # how many dimensions the callee skips, relative to this call
+            eoff = eoff.as_long() if z3.is_int_value(eoff) else None
             if args[3] is not FUNCS:
                 raise Unsupported("recursive call passes other callbacks: %s" % src)
             if not isinstance(args[0], DimsV) or not isinstance(args[1], Coords) or not (args[2] is None or isinstance(args[2], Rows)):
                 raise Unsupported(src)
-            self.events.append(dict(kind="call", pc=list(pc), key=env.get("!key"), dims=args[0], coords=args[1], rows=args[2], src=src, line=e.lineno))
+            self.events.append(dict(kind="call", pc=list(pc), key=env.get("!key"), dims=args[0], eoff=eoff, coords=args[1], rows=args[2], src=src, line=e.lineno))
             return None
         if f is FUNC and len(args) == 2:
             if not isinstance(args[0], Coords):
@@ -452,7 +477,7 @@ def verify_walk(tree, module="ccubes.ccube"):
                 got, cond = ev["rows"].set, z3.And(*pc, m)
                 inc = ev["rows"].inc
             else:
-                shape_ok = isinstance(ev["dims"], DimsV) and ev["dims"].off == 1 and len(ev["coords"].segs) == 2 and isinstance(ev["coords"].segs[0], tuple) and ev["coords"].segs[0] == ("B",) and not isinstance(ev["coords"].segs[1], tuple)
+                shape_ok = isinstance(ev["dims"], DimsV) and ev["eoff"] == 1 and len(ev["coords"].segs) == 2 and isinstance(ev["coords"].segs[0], tuple) and ev["coords"].segs[0] == ("B",) and not isinstance(ev["coords"].segs[1], tuple)
                 obls.append(Obl(name + "/call-requires[strictly shorter dims, base_coords + one coordinate]", "call-requires", hyps + pc, z3.BoolVal(bool(shape_ok)), {"site": ev["src"]}))
                 r_ = ev["rows"]
                 obls.append(Obl(name + "/call-requires[rowids None or strictly increasing; None when no dims remain]", "call-requires", hyps + pc,
